@@ -54,6 +54,10 @@ func runWriterOps(c *lib.Ctx, ops []lib.SOp, w redact.SafeWriter, wr io.Writer) 
 			w.UnsafeByte(byte(op.N))
 		case "SafeInt":
 			w.SafeInt(redact.SafeInt(op.N))
+		case "SafeUint":
+			w.SafeUint(redact.SafeUint(uint64(int64(op.N))))
+		case "SafeFloat":
+			w.SafeFloat(redact.SafeFloat(c.Value(op.Ts[0]).(float64)))
 		case "Write":
 			wr.Write(c.Subst(op.B))
 		case "Print":
@@ -155,6 +159,10 @@ func denoteWriterOps(c *lib.Ctx, h []lib.SOp) (strip, vis []byte, ok bool) {
 			}
 		case "SafeInt":
 			add([]byte(fmt.Sprint(op.N)), true, true)
+		case "SafeUint":
+			add([]byte(fmt.Sprint(uint64(int64(op.N)))), true, true)
+		case "SafeFloat":
+			add([]byte(fmt.Sprint(c.Value(op.Ts[0]))), true, true)
 		case "Print":
 			args(op.Ts, false)
 		case "Printf":
@@ -224,7 +232,7 @@ func opsString(h []lib.SOp) string {
 			sb.WriteString("; ")
 		}
 		switch op.O {
-		case "SafeRune", "UnsafeRune", "SafeByte", "UnsafeByte", "SafeInt":
+		case "SafeRune", "UnsafeRune", "SafeByte", "UnsafeByte", "SafeInt", "SafeUint", "SafeFloat":
 			fmt.Fprintf(&sb, "%s(%#x)", op.O, op.N)
 		case "Print", "Printf":
 			fmt.Fprintf(&sb, "%s(%v %s)", op.O, op.F, termsString(op.Ts))
